@@ -273,12 +273,12 @@ macro_rules! writer_harness {
     };
 }
 
-// @harness name=c10_writer_3 props=C10,C07 tier=quick timeout=1500 rmbody=ioerr,nogrow,nowaiters mem=20 unwindset=StreamWriter<.*>.as.futures_util::AsyncWrite>::poll_write$:6;drop_glue::<.slab::Entry<.*>.>$:2
+// @harness name=c10_writer_3 props=C10,C07 tier=quick timeout=2400 rmbody=ioerr,nogrow,nowaiters mem=20 unwindset=StreamWriter<.*>.as.futures_util::AsyncWrite>::poll_write$:6;drop_glue::<.slab::Entry<.*>.>$:2
 // @bound one StreamWriter (Stdout|Stderr, any id), payload of 3 symbolic bytes (5 padding bytes); the transport checks every vectored write against the expected record and accepts any 1..n bytes with <= 3 short writes (cuts inside the header, at the seams, inside the padding) and <= 1 Pending; polled to completion
 // @functions StreamWriter::poll_write, RepeatableLockFuture::poll, RecordHeader::{set_lengths,to_bytes,padding_bytes}
 writer_harness!(c10_writer_3, 3);
 
-// @harness name=c10_writer_8 props=C10 tier=quick timeout=1500 rmbody=ioerr,nogrow,nowaiters mem=20 unwindset=StreamWriter<.*>.as.futures_util::AsyncWrite>::poll_write$:6;drop_glue::<.slab::Entry<.*>.>$:2
+// @harness name=c10_writer_8 props=C10 tier=quick timeout=2400 rmbody=ioerr,nogrow,nowaiters mem=20 unwindset=StreamWriter<.*>.as.futures_util::AsyncWrite>::poll_write$:6;drop_glue::<.slab::Entry<.*>.>$:2
 // @bound as c10_writer_3 with a payload of 8 symbolic bytes (no padding)
 // @functions StreamWriter::poll_write
 writer_harness!(c10_writer_8, 8);
@@ -679,7 +679,7 @@ fn glue_poll_read_case(buffered_max: usize, pend_sym: bool, d_fixed: Option<usiz
 #[kani::stub(stream::Parser::compress, sv::compress_contract)]
 fn c09_glue_poll_read_min() { glue_poll_read_case(0, false, Some(4)); }
 
-// @harness name=c09_glue_poll_read_pending props=C09,C08,C12 tier=quick timeout=1800 rmbody=ioerr,nogrow,nowaiters mem=20 unwindset=Request::<'_,.*>::poll_input$:5;Request::<'_,.*>::poll_output$:4;drop_glue::<.slab::Entry<.*>.>$:2 dead=1
+// @harness name=c09_glue_poll_read_pending props=C09,C08,C12 tier=quick timeout=2400 rmbody=ioerr,nogrow,nowaiters mem=20 unwindset=Request::<'_,.*>::poll_input$:5;Request::<'_,.*>::poll_output$:4;drop_glue::<.slab::Entry<.*>.>$:2 dead=1
 // @bound ONE poll of Request::poll_read against the parser contract: nothing buffered, 0 or 2 reply bytes pending, caller buffer 0..4; reader: <= 2 reads of symbolic size, <= 1 Pending, then EOF or error; writer: any split (<= 1 short write), <= 1 Pending; parser contract: any consumption / replies / delivery (<= 3 bytes per call) / end of stream / <= 1 error. Sequences of polls follow by induction over the symbolic state
 // @functions Request::poll_read, Request::poll_input, Request::poll_output, RepeatableLockFuture::poll
 #[kani::proof]
@@ -689,7 +689,7 @@ fn c09_glue_poll_read_min() { glue_poll_read_case(0, false, Some(4)); }
 #[kani::stub(stream::Parser::compress, sv::compress_contract)]
 fn c09_glue_poll_read_pending() { glue_poll_read_case(0, true, None); }
 
-// @harness name=c09_glue_poll_read_buffered props=C09,C08,C12 tier=quick timeout=1800 rmbody=ioerr,nogrow,nowaiters mem=20 unwindset=Request::<'_,.*>::poll_input$:5;Request::<'_,.*>::poll_output$:4;drop_glue::<.slab::Entry<.*>.>$:2
+// @harness name=c09_glue_poll_read_buffered props=C09,C08,C12 tier=quick timeout=2400 rmbody=ioerr,nogrow,nowaiters mem=20 unwindset=Request::<'_,.*>::poll_input$:5;Request::<'_,.*>::poll_output$:4;drop_glue::<.slab::Entry<.*>.>$:2
 // @bound ONE poll of Request::poll_read against the parser contract: 0..2 stream bytes buffered, 0 or 2 reply bytes pending, caller buffer 0..4; reader: <= 2 reads of symbolic size, <= 1 Pending, then EOF or error; writer: any split (<= 1 short write), <= 1 Pending; parser contract: any consumption / replies / delivery (<= 3 bytes per call) / end of stream / <= 1 error. Sequences of polls follow by induction over the symbolic state
 // @functions Request::poll_read, Request::poll_input, Request::poll_output, RepeatableLockFuture::poll
 #[kani::proof]
@@ -699,7 +699,7 @@ fn c09_glue_poll_read_pending() { glue_poll_read_case(0, true, None); }
 #[kani::stub(stream::Parser::compress, sv::compress_contract)]
 fn c09_glue_poll_read_buffered() { glue_poll_read_case(2, true, None); }
 
-// @harness name=c08_glue_parse_request props=C08,C07,C12 tier=quick timeout=1800 rmbody=ioerr,nogrow,nodropreq mem=30 unwindset=Token::parse_request::<.*>::.closure.0.$:4;WriteAll<.*>.as.futures_util::Future>::poll$:3
+// @harness name=c08_glue_parse_request props=C08,C07,C12 tier=quick timeout=2400 rmbody=ioerr,nogrow,nodropreq mem=30 unwindset=Token::parse_request::<.*>::.closure.0.$:4;WriteAll<.*>.as.futures_util::Future>::poll$:3
 // @bound Token::parse_request against the request parser's contract (any consumption, 0|2 reply bytes per call, done or not): 0..24 bytes handed over by the previous request; reader: 1 byte then EOF/error, <= 1 Pending; writer: <= 1 short write, <= 1 Pending; polled up to 3 times
 // @functions Token::parse_request, AsyncReadExt::read, AsyncWriteExt::write_all, request::Parser::input_buffer
 #[kani::proof]
